@@ -740,6 +740,9 @@ class Lib:
             if isinstance(o, ListO):
                 if all(isinstance(i, StrV) for i in o.items) and isinstance(x, StrV):
                     return z3.BoolVal(x.s in [i.s for i in o.items])
+                if all(isinstance(i, StrV) for i in o.items) and isinstance(x, OpaqueV):
+                    # membership of a symbolic string in a constant table (supported metric names)
+                    return F('in_table_' + str(len(o.items)), Opaque, Bool)(x.term)
                 if isinstance(x, ArmV) and all(isinstance(i, ArmV) for i in o.items):
                     return z3.Or(*[x.term == i.term for i in o.items]) if o.items else z3.BoolVal(False)
                 if isinstance(x, Num) and all(isinstance(i, ArmV) for i in o.items) and o.items:
